@@ -171,7 +171,7 @@ def specs(ctx, s):
         ctx.ob("SPEC", ok=not probs, distinct=("grp", k))
         for pr in probs:
             ctx.violation("SPEC", f"grp|{k}|{pr}", origin.get((True, k), k), f"group aggregate {k}: {pr}")
-    start = datetime.date(2015, 1, 1) if ctx.tier == "quick" else datetime.date(1980, 1, 1)
+    start = datetime.date(1980, 1, 1)
     dates = [f for f, _ in s.em.intervals(start)]
     for k, sp in pid.items():
         probs = _spec_problems(repo, k, sp, group=False)
